@@ -227,9 +227,14 @@ impl<T> Drop for Drain<'_, T> {
         if T::IS_ZST {
             // ZSTs have no identity, so we don't need to move them around, we only need to drop the correct amount.
             // this can be achieved by manipulating the slice length instead of moving values out from `iter`.
+            //
+            // The remaining elements are dropped by `truncate`, `iter` must not drop them a second time.
+            let drop_len = iter.len();
+            mem::forget(iter);
+
             unsafe {
                 let old_len = self.slice.len();
-                non_null::set_len(self.slice, old_len + iter.len() + self.tail_len);
+                non_null::set_len(self.slice, old_len + drop_len + self.tail_len);
                 non_null::truncate(self.slice, old_len + self.tail_len);
             }
 
